@@ -35,7 +35,9 @@ WORDS = ['la', 'Ky-', '-ri-', 'e', '_', 'A-', 'men', 'do', 're', 'mi', 'Gott', '
          'rit.', 'rit', 'rall.', 'rinf.', 'ring', 'river', 'res-', 'ri-', '-re', 'rf', 'poco', 'più', 'ten.', 'stacc.', 'xywh']
 HOSTILE_WORDS = ['"quoted"', "it's", 'a,b', 'two words', 'naïve', 'señor', 'größe', '日本', 'a"b', '""', '"', 'c\\d',
                  "''", 'x;y', ' lead', 'trail ', 'q"', '"open', 'close"', 'a""b', ',', "'", '\\', 'ñ', 'é', '€uro',
-                 'tab?', 'a  b', '"a"b"', 'Ωmega', 'x|y', '4c|', '#', '-', '--', '~', '{x}', '"a b" c']
+                 'tab?', 'a  b', '"a"b"', 'Ωmega', 'x|y', '4c|', '#', '-', '--', '~', '{x}', '"a b" c',
+                 # decomposed accents and singleton code points: text is kept code point for code point, never normalised
+                 'cafe\u0301', 'man\u0303ana', '\u212bngstro\u0308m', '\u2126', 'fac\u0327ade', '\ufb01n']
 SEPARATOR_WORDS = ['col·le', 'me@example.org', '@', '·', 'a@b·c']
 
 
